@@ -653,7 +653,7 @@ pub fn run(ctx: &Ctx) -> Evidence {
     let max_len = ctx.tier.pick(4usize, 5usize);
     let runs = ctx.tier.pick(100usize, 3000usize);
     ev.rule = format!(
-        "(b) the real PStateAggregator on tokio's paused clock: every timed script of 1..={max_len} events over {{set k1, set k2, deleted k1, deleted k2, set k1+k2, deleted k1+k2}} with gaps between consecutive events from {{0, 1/3, 2/3, 1, 4/3}} x interval (interval 30 ms virtual; scripts with a zero gap are run twice: aggregator task scheduled between the two events or not); every batch stamped with the virtual time of its hand-over to the client channel (capacity 1024, never full); oracles: per key concatenated batches == input events (kind and identity, nothing lost/duplicated/invented/reordered, no key twice in a batch), every event handed over <= arrival + interval, everything delivered two intervals after the last arrival. (b2) the same with scripts one event shorter against a stalled client (client channel of capacity 1, client starts to read at 2/3 and at 5/3 of the interval, so the aggregator task is blocked in its send meanwhile): same content oracle, and every event handed over <= max(arrival, start of reading) + interval. A script is non-trivial if the run produced a batch that merges >= 2 input events or an early flush (forced by a conflicting arrival or by a stale timer) or, in (b2), a batch that was held back by the stalled client; distinct = distinct (events, gaps, scheduling variant, client stall). (a) {runs} runs against a live in-process server over its unix socket: one session holds an aggregated (aggregateEvents 3..40 ms) and a plain psubscribe on the same pattern, a writer session sends pipelined bursts (set/publish/delete/pdelete, repeated keys, set/delete alternation, random pauses around the interval) and marker barriers; at every barrier (marker event seen on both subscriptions) the per-key event sequences (kind, value) of both subscriptions must be equal; a run is non-trivial if it saw an aggregated batch with >= 2 events and a key with >= 2 events; timing is not judged in (a); a watchdog expiry is inconclusive."
+        "(b) the real PStateAggregator on tokio's paused clock: every timed script of 1..={max_len} events over {{set k1, set k2, deleted k1, deleted k2, set k1+k2, deleted k1+k2}} with gaps between consecutive events from {{0, 1/3, 2/3, 1, 4/3}} x interval (interval 30 ms virtual; scripts with a zero gap are run twice: aggregator task scheduled between the two events or not); every batch stamped with the virtual time of its hand-over to the client channel (capacity 1024, never full); oracles: per key concatenated batches == input events (kind and identity, nothing lost/duplicated/invented/reordered, no key twice in a batch), every event handed over <= arrival + interval, everything delivered two intervals after the last arrival. (b2) the same with scripts one event shorter against a stalled client (client channel of capacity 1, client starts to read at 2/3 and at 5/3 of the interval, so the aggregator task is blocked in its send meanwhile): same content oracle, and every event handed over <= max(arrival, start of reading) + interval. A script is non-trivial if the run produced a batch that merges >= 2 input events or an early flush (forced by a conflicting arrival or by a stale timer) or, in (b2), a batch that was held back by the stalled client; distinct = distinct (events, gaps, scheduling variant, client stall). (a) {runs} runs against a live in-process server over its unix socket: one session holds an aggregated (aggregateEvents 3..40 ms) and a plain psubscribe on the same pattern, a writer session sends pipelined bursts (set/publish/delete/pdelete, repeated keys, set/delete alternation, random pauses around the interval; one run in eight instead sets 260-700 distinct keys inside one long interval and pdeletes them) and marker barriers; at every barrier (marker event seen on both subscriptions) the per-key event sequences (kind, value) of both subscriptions must be equal; a run is non-trivial if it saw an aggregated batch with >= 2 events and a key with >= 2 events; timing is not judged in (a); a watchdog expiry is inconclusive."
     );
     core_paused(ctx, &mut ev);
     c16_sock::socket_content(ctx, &mut ev, runs);
